@@ -1,50 +1,634 @@
-"""C05 bounded stand-in: rename on small executable single- and multi-module programs.
+"""C05 bounded stand-in: rename on generated executable single- and multi-module programs.
 
 Contract: (a) the rewritten occurrences are exactly the reported references, (b) references form a partition (asking
 from any reported occurrence gives the same set), (c) renaming back restores the text byte for byte, (d) the renamed
-program (file renames applied) runs with the same output."""
+program (file renames applied) runs with the same output.
+
+Input space.  A program is assembled from 1-3 independent *strands*.  A strand is
+    entity kind  x  where the entity is defined  x  optional re-exporting hop  x  where it is consumed  x
+    how the consumer imports it  x  import at module level or inside a function  x  which uses are made of it  x
+    a decoy (the same spelling bound to something unrelated)
+and all strands of one program share one module skeleton (a regular or namespace package with a sub-module and a
+nested sub-package, flat modules, an optional second search-path root), so that several strands meet in the same
+modules.  Every identifier the program binds lexically (found with ``ast``: functions, classes, parameters, variables,
+attributes, methods, modules, packages, aliases) is a rename candidate and every token occurrence of it in every file
+is a possible cursor position.  The seven programs of the first version of this stand-in are kept as fixed programs.
+
+Oracles.  The Python interpreter (the original and the rewritten program are executed in child processes and their
+exit status and output compared), byte comparison of the file tree, the compiler's symbol table (``symtable``) for
+the binding of plain names inside one module, and set equality of jedi's own answers for the clauses that say "the
+same set".  A program that does not run, a symbol table that cannot be matched with the ast, ... raise: they are
+defects of this file, never violations.
+
+Safety.  A rename whose references reach a module outside the temporary project would, when applied, rewrite or
+rename files of the Python installation.  Therefore (1) generated programs import nothing but their own modules and
+none of their module names is importable in this interpreter (``ProgramCheck.check_self_contained`` raises
+otherwise) and (2) before every ``Refactoring.apply()`` all changed files and both ends of all announced renames must
+lie inside the work directory of the evaluation, which lies inside STANDIN_TMP (``ProgramCheck.outside``); otherwise
+nothing is applied and the violation 'rename reaches files outside the project (not applied)' is reported.
+
+Kinds of input.  Every violation carries ``'kind'``: the roles of the identifier (function, class, param, variable,
+attribute, module, alias, imported) plus syntactic circumstances found with ``ast`` (alias, imported-under-an-alias,
+nonlocal, global-statement, global-and-other-binding-in-one-module, keyword-argument-in-another-module,
+comprehension-condition, imported-from-several-modules, in-namespace-package, short-name).  Of every
+(label, kind) at most three violations are listed, all are counted."""
+import ast
+import io
+import keyword
+import multiprocessing
 import os
-import re
+import random
 import shutil
 import subprocess
 import sys
-import tempfile
+import symtable
 import tokenize
-import io
 import traceback
 
-PROGRAMS = [
-    # (files {relpath: text}, main module, identifiers to rename)
+# --------------------------------------------------------------------------------------------------------------------
+# fixed programs (the first version of this stand-in; kept as a regression set)
+
+FIXED_PROGRAMS = [
+    # (files {relpath: text}, main module, extra search-path roots)
     ({'main.py': 'def compute(value, scale=2):\n    total = value * scale\n    return total\n\n'
                  'result = compute(3)\nprint(result, compute(value=4, scale=1))\n'},
-     'main.py', ['compute', 'value', 'scale', 'total', 'result']),
+     'main.py', []),
     ({'main.py': 'class Box:\n    size = 1\n    def __init__(self, item):\n        self.item = item\n'
                  '    def get(self):\n        return self.item, self.size\n\n'
                  'b = Box(5)\nprint(b.get(), b.item, Box.size)\n'},
-     'main.py', ['Box', 'item', 'size', 'get', 'b']),
+     'main.py', []),
     ({'main.py': 'by_second = lambda pair: pair[1]\ntable = {"k": lambda arg: arg + 1}\n'
                  'print(by_second((1, 2)), table["k"](3))\n'
                  'def outer(n):\n    def inner(m):\n        return n + m\n    return inner\nprint(outer(1)(2))\n'},
-     'main.py', ['pair', 'arg', 'by_second', 'n', 'm', 'inner']),
+     'main.py', []),
     ({'core.py': 'def übersetze(wort):\n    return wort.upper()\n\ncafé = 3\n\ndef plain(x):\n    return x\n',
       'app.py': 'from core import übersetze, café, plain\nprint(übersetze("a"), café, plain(1))\n',
       'main.py': 'import app\nimport core\nprint(core.übersetze("b"), core.plain(2))\n'},
-     'main.py', ['übersetze', 'café', 'plain', 'wort']),
+     'main.py', []),
     ({'pkg/__init__.py': 'from pkg.util import helper\n', 'pkg/util.py': 'def helper(a):\n    return a * 2\n',
       'main.py': 'import pkg\nfrom pkg import util\nfrom pkg.util import helper as h\n'
                  'print(pkg.helper(1), util.helper(2), h(3))\n'},
-     'main.py', ['helper', 'util', 'pkg']),
+     'main.py', []),
     ({'main.py': 'for idx in range(2):\n    print(idx)\nwith open(__file__) as fh:\n    data = fh.read(1)\n'
                  'try:\n    raise ValueError(data)\nexcept ValueError as err:\n    print(type(err).__name__)\n'
                  'x = [e * 2 for e in (1, 2)]\nprint(x)\n'},
-     'main.py', ['idx', 'fh', 'data', 'err', 'e', 'x']),
+     'main.py', []),
     # implicit namespace package split over two search-path roots
     ({'src1/plugins/alpha.py': 'def a():\n    return 1\n', 'src2/plugins/beta.py': 'def b():\n    return 2\n',
       'main.py': 'import plugins.alpha\nimport plugins.beta\nfrom plugins import alpha\n'
                  'print(plugins.alpha.a(), plugins.beta.b(), alpha.a())\n'},
-     'main.py', ['plugins', 'alpha'], ['src1', 'src2']),
+     'main.py', ['src1', 'src2']),
 ]
 
+# --------------------------------------------------------------------------------------------------------------------
+# program generator
+
+LOWER_NAMES = [
+    'compute', 'value', 'scale', 'total', 'result', 'fetch', 'item', 'size', 'amount', 'ledger', 'widget', 'render',
+    'depth', 'margin', 'weight', 'cursor', 'helper', 'offset', 'factor', 'bucket', 'beacon', 'anchor', 'branch',
+    'carry', 'delta', 'energy', 'filter_it', 'gather', 'handle', 'index_of', 'joined', 'kernel', 'lookup', 'merge_it',
+    'notch', 'origin', 'packet', 'quota', 'ratio', 'sample', 'ticket', 'update_it', 'vector', 'window', 'yield_it',
+    'zone', 'armor', 'blend', 'crate', 'drift', 'ember', 'flint', 'grove', 'hinge', 'ivory', 'jolt', 'knack',
+    'latch', 'mirth', 'nudge', 'orbit', 'plume', 'quill', 'ridge', 'spoke', 'thorn', 'umbra', 'vigor', 'whisk',
+    'übersetze', 'café', 'maß', 'größe', 'naïve_x', 'señal',
+]
+SHORT_NAMES = ['fn', 'kv', 'ab', 'qz']          # at most two characters
+UPPER_NAMES = ['Widget', 'Basket', 'Ledger', 'Canvas', 'Folder', 'Gadget', 'Harbor', 'Écran', 'Marker', 'Parcel']
+
+KINDS = ['func', 'cls', 'const', 'globalvar', 'conddef', 'trydef', 'redef', 'refunc', 'inherit', 'closure',
+         'decorated', 'descriptors', 'instance', 'loops', 'lambda_', 'unpack', 'annotated', 'starargs']
+PROVIDER_LOCS = ['inline', 'flat', 'pkgsub', 'nested', 'pkginit', 'secondroot', 'nssplit']
+HOPS = ['none', 'none', 'pkg_init', 'inner_init', 'flat_hop']
+CONSUMER_LOCS = ['main', 'flat', 'sibling', 'deep']
+FORMS = ['from_name', 'from_name_as', 'import_mod', 'import_mod_as', 'from_parent', 'from_parent_as', 'star',
+         'fallback_try', 'fallback_if']
+SCOPES = ['top', 'top', 'function']
+DECOYS = ['none', 'local', 'attribute', 'othermodule']
+
+
+class Skeleton:
+    """module names shared by the strands of one program"""
+
+    def __init__(self, rng, names):
+        self.pkg, self.sub, self.inner, self.leaf, self.mod, self.twin, self.app, self.user, self.hop, self.extra, \
+            self.user2, self.ns, self.nsmod, self.nsother = [names.lower() for _ in range(14)]
+        self.namespace = rng.random() < 0.3      # the package has no __init__.py (unless somebody needs one)
+        self.root2 = 'lib_' + names.lower()
+
+
+class NamePool:
+    def __init__(self, rng):
+        self.rng = rng
+        self.pool_lower = LOWER_NAMES[:]
+        self.pool_upper = UPPER_NAMES[:]
+        self.pool_short = SHORT_NAMES[:]
+        rng.shuffle(self.pool_lower)
+        rng.shuffle(self.pool_upper)
+        rng.shuffle(self.pool_short)
+        self.short_probability = 0.0
+
+    def lower_(self):
+        """a name of at least three characters"""
+        return self.pool_lower.pop()
+
+    def lower(self):
+        if self.pool_short and self.rng.random() < self.short_probability:
+            return self.pool_short.pop()
+        return self.pool_lower.pop()
+
+    def upper_(self):
+        return self.pool_upper.pop()
+
+
+class Module:
+    def __init__(self, dotted, path, is_package):
+        self.dotted = dotted
+        self.path = path
+        self.is_package = is_package
+        self.imports = []
+        self.body = []
+
+    @property
+    def package(self):
+        if self.is_package:
+            return self.dotted
+        return self.dotted.rpartition('.')[0]
+
+    def text(self):
+        return ''.join(self.imports) + ''.join(self.body)
+
+
+class Program:
+    def __init__(self, rng, short_probability=0.0):
+        self.rng = rng
+        self.names = NamePool(rng)
+        self.sk = Skeleton(rng, self.names)
+        self.names.short_probability = short_probability
+        self.modules = {}
+        self.extra_roots = []
+        self.need_init = set()
+        self.tags = []
+        self.main = self.module('main')
+
+    def module(self, dotted, root=''):
+        if dotted not in self.modules:
+            parts = dotted.split('.')
+            is_package = dotted in (self.sk.pkg, self.sk.pkg + '.' + self.sk.inner)
+            rel = os.path.join(*parts)
+            rel = os.path.join(rel, '__init__.py') if is_package else rel + '.py'
+            if parts[0] == self.sk.pkg and dotted != self.sk.pkg:
+                self.module_package(self.sk.pkg)
+            if len(parts) > 2:
+                self.module_package('.'.join(parts[:2]))
+            self.modules[dotted] = Module(dotted, os.path.join(root, rel), is_package)
+            if root and root not in self.extra_roots:
+                self.extra_roots.append(root)
+        return self.modules[dotted]
+
+    def module_package(self, dotted):
+        # remember the package; whether it gets an __init__.py is decided in files()
+        self.need_init.add(dotted)
+
+    def files(self):
+        out = {}
+        for m in self.modules.values():
+            out[m.path] = m.text()
+        for dotted in sorted(self.need_init):
+            path = os.path.join(*dotted.split('.'), '__init__.py')
+            if path not in out and not self.sk.namespace:
+                out[path] = ''
+        return out
+
+
+def relative_spec(importer, target):
+    """the relative spelling of module ``target`` seen from module ``importer`` or None"""
+    pkg = importer.package
+    if not pkg:
+        return None
+    cp, tp = pkg.split('.'), target.split('.')
+    if cp[0] != tp[0]:
+        return None
+    c = 0
+    while c < len(cp) and c < len(tp) and cp[c] == tp[c]:
+        c += 1
+    return '.' * (len(cp) - c + 1) + '.'.join(tp[c:])
+
+
+class State:
+    """how the exported names of an entity are reached from a module: ``module``.``prefix``.``namemap[name]``"""
+
+    def __init__(self, module, prefix, namemap):
+        self.module, self.prefix, self.namemap = module, prefix, namemap
+
+    def heads(self):
+        return [self.prefix[0]] if self.prefix else list(self.namemap.values())
+
+
+def import_step(prog, importer, state, form, relative, combine):
+    """-> (list of import statements, new state) for ``importer`` importing what ``state`` describes"""
+    rng, names = prog.rng, prog.names
+    target = state.module.dotted
+    spec = target
+    if relative:
+        spec = relative_spec(importer, target) or target
+    parent, _, last = target.rpartition('.')
+    heads = state.heads()
+    if form in ('from_parent', 'from_parent_as') and not parent:
+        form = {'from_parent': 'import_mod', 'from_parent_as': 'import_mod_as'}[form]
+    if form == 'star' and (state.prefix or any(h.startswith('_') for h in heads)):
+        form = 'from_name'
+    if form in ('from_name', 'from_name_as', 'star'):
+        if form == 'star':
+            stmts = ['from %s import *\n' % spec]
+            alias = {h: h for h in heads}
+        else:
+            alias = {h: (names.lower_() if form == 'from_name_as' else h) for h in heads}
+            items = ['%s as %s' % (h, alias[h]) if alias[h] != h else h for h in heads]
+            if combine and len(items) > 1:
+                stmts = ['from %s import %s\n' % (spec, ', '.join(items))]
+            else:
+                stmts = ['from %s import %s\n' % (spec, it) for it in items]
+        if state.prefix:
+            new = State(importer, [alias[state.prefix[0]]] + state.prefix[1:], state.namemap)
+        else:
+            new = State(importer, [], {k: alias[v] for k, v in state.namemap.items()})
+        return stmts, new
+    if form == 'import_mod':
+        return ['import %s\n' % target], State(importer, target.split('.') + state.prefix, state.namemap)
+    if form == 'import_mod_as':
+        a = names.lower_()
+        return ['import %s as %s\n' % (target, a)], State(importer, [a] + state.prefix, state.namemap)
+    if form in ('from_parent', 'from_parent_as'):
+        pspec = parent
+        if relative:
+            pspec = relative_spec(importer, parent) or parent
+        a = names.lower_() if form == 'from_parent_as' else last
+        item = '%s as %s' % (last, a) if a != last else last
+        return ['from %s import %s\n' % (pspec, item)], State(importer, [a] + state.prefix, state.namemap)
+    raise AssertionError(form)
+
+
+def entity(prog, kind):
+    """-> (source text, exported names, list of use expressions as functions of an accessor, tag names)"""
+    n, rng = prog.names, prog.rng
+    L, U = n.lower, n.upper_
+    if kind == 'func':
+        N, P, Q, T = L(), L(), L(), L()
+        fstring = rng.random() < 0.4
+        ret = 'f"{%s}+{%s!r}"' % (T, P) if fstring else '%s + 1' % T
+        C = L()
+        src = ('def %s(%s, %s=2):\n    %s = %s * %s\n    return %s\n\n\n%s = %s(1, %s=3)\n'
+               % (N, P, Q, T, P, Q, ret, C, N, Q))
+        uses = [lambda a: '%s(3)' % a(N), lambda a: '%s(4, 5)' % a(N), lambda a: '%s(7, %s=1)' % (a(N), Q),
+                lambda a: '%s(%s=6)' % (a(N), P)]
+        return src, [N], uses
+    if kind == 'cls':
+        N, A, P, F, M, Q, M2, C = U(), L(), L(), L(), L(), L(), L(), L()
+        src = ('class %s:\n    %s = 3\n\n    def __init__(self, %s):\n        self.%s = %s\n\n'
+               '    def %s(self, %s=1):\n        return self.%s + %s + self.%s\n\n'
+               '    def %s(self):\n        return self.%s(%s=2) + %s(%s=1).%s\n\n\n%s = %s(%s=2).%s()\n'
+               % (N, A, P, F, P, M, Q, F, Q, A, M2, M, Q, N, P, F, C, N, P, M2))
+        uses = [lambda a: '%s(5).%s()' % (a(N), M), lambda a: '%s.%s' % (a(N), A), lambda a: '%s(2).%s' % (a(N), F),
+                lambda a: '%s(1).%s(%s=4)' % (a(N), M, Q), lambda a: '%s(%s=8).%s' % (a(N), P, F),
+                lambda a: '%s(3).%s()' % (a(N), M2)]
+        return src, [N], uses
+    if kind == 'const':
+        N = L()
+        src = '%s = 7\n' % N
+        uses = [lambda a: '%s + 1' % a(N), lambda a: '[%s, %s]' % (a(N), a(N)), lambda a: '%s' % a(N)]
+        return src, [N], uses
+    if kind == 'globalvar':
+        N, B, S = L(), L(), L()
+        src = '%s = 0\n\n\ndef %s(%s=1):\n    global %s\n    %s = %s + %s\n    return %s\n' % (N, B, S, N, N, N, S, N)
+        uses = [lambda a: '%s()' % a(B), lambda a: '%s(2)' % a(B), lambda a: '%s' % a(N), lambda a: '%s + 0' % a(N)]
+        return src, [N, B], uses
+    if kind == 'conddef':
+        N, W, P = L(), L(), L()
+        src = ('%s = len("ab") == 2\nif %s:\n    def %s(%s):\n        return %s + 1\nelse:\n'
+               '    def %s(%s):\n        return %s - 1\n' % (W, W, N, P, P, N, P, P))
+        uses = [lambda a: '%s(1)' % a(N), lambda a: '%s(2)' % a(N), lambda a: '%s(%s=3)' % (a(N), P)]
+        return src, [N], uses
+    if kind == 'trydef':
+        N, E = L(), L()
+        src = 'try:\n    %s = int("7")\nexcept ValueError as %s:\n    %s = len(str(%s))\n' % (N, E, N, E)
+        uses = [lambda a: '%s' % a(N), lambda a: '%s * 2' % a(N)]
+        return src, [N], uses
+    if kind == 'redef':
+        N = L()
+        src = '%s = 2\n%s = %s * 3\n%s += 1\n' % (N, N, N, N)
+        uses = [lambda a: '%s' % a(N), lambda a: '%s - 1' % a(N)]
+        return src, [N], uses
+    if kind == 'refunc':
+        N, P, B = L(), L(), L()
+        src = ('def %s(%s):\n    return %s + 1\n\n\n%s = %s(1)\n\n\ndef %s(%s):\n    return %s + %s\n'
+               % (N, P, P, B, N, N, P, P, B))
+        uses = [lambda a: '%s(1)' % a(N), lambda a: '%s(5)' % a(N)]
+        return src, [N], uses
+    if kind == 'inherit':
+        B, N, A, M, M2 = U(), U(), L(), L(), L()
+        src = ('class %s:\n    %s = 1\n\n    def %s(self):\n        return self.%s\n\n\n'
+               'class %s(%s):\n    def %s(self):\n        return self.%s() + 1\n' % (B, A, M, A, N, B, M2, M))
+        uses = [lambda a: '%s().%s()' % (a(N), M2), lambda a: '%s().%s()' % (a(N), M), lambda a: '%s.%s' % (a(N), A)]
+        return src, [N], uses
+    if kind == 'closure':
+        N, P, C, I, Q = L(), L(), L(), L(), L()
+        src = ('def %s(%s):\n    %s = %s\n\n    def %s(%s):\n        nonlocal %s\n        %s = %s + %s\n'
+               '        return %s\n    return %s\n' % (N, P, C, P, I, Q, C, C, C, Q, C, I))
+        uses = [lambda a: '%s(1)(2)' % a(N), lambda a: '%s(%s=3)(4)' % (a(N), P)]
+        return src, [N], uses
+    if kind == 'decorated':
+        D, F, W, N, P = L(), L(), L(), L(), L()
+        src = ('def %s(%s):\n    def %s(*args):\n        return %s(*args) + 1\n    return %s\n\n\n'
+               '@%s\ndef %s(%s):\n    return %s\n' % (D, F, W, F, W, D, N, P, P))
+        uses = [lambda a: '%s(3)' % a(N), lambda a: '%s(5)' % a(N)]
+        return src, [N], uses
+    if kind == 'descriptors':
+        N, P, F, R, S, Q, K = U(), L(), L(), L(), L(), L(), L()
+        src = ('class %s:\n    def __init__(self, %s):\n        self.%s = %s\n\n    @property\n    def %s(self):\n'
+               '        return self.%s * 2\n\n    @staticmethod\n    def %s(%s):\n        return %s + 1\n\n'
+               '    @classmethod\n    def %s(cls, %s):\n        return cls.%s(%s)\n'
+               % (N, P, F, P, R, F, S, Q, Q, K, Q, S, Q))
+        uses = [lambda a: '%s(3).%s' % (a(N), R), lambda a: '%s.%s(1)' % (a(N), S), lambda a: '%s.%s(2)' % (a(N), K)]
+        return src, [N], uses
+    if kind == 'instance':
+        C, P, F, M, N = U(), L(), L(), L(), L()
+        src = ('class %s:\n    def __init__(self, %s):\n        self.%s = %s\n\n    def %s(self):\n'
+               '        return self.%s + 1\n\n\n%s = %s(3)\n' % (C, P, F, P, M, F, N, C))
+        uses = [lambda a: '%s.%s()' % (a(N), M), lambda a: '%s.%s' % (a(N), F)]
+        return src, [N], uses
+    if kind == 'loops':
+        N, P, T, I, S, E, H = L(), L(), L(), L(), L(), L(), L()
+        src = ('def %s(%s):\n    %s = 0\n    for %s in range(%s):\n        %s += %s\n'
+               '    %s = [%s * 2 for %s in range(%s) if %s]\n    with open(__file__) as %s:\n        %s.read(1)\n'
+               '    return %s + sum(%s)\n' % (N, P, T, I, P, T, I, S, E, E, P, E, H, H, T, S))
+        uses = [lambda a: '%s(3)' % a(N), lambda a: '%s(4)' % a(N)]
+        return src, [N], uses
+    if kind == 'lambda_':
+        N, P, Q = L(), L(), L()
+        src = '%s = lambda %s, %s=1: %s + %s\n' % (N, P, Q, P, Q)
+        uses = [lambda a: '%s(1)' % a(N), lambda a: '%s(1, %s=2)' % (a(N), Q)]
+        return src, [N], uses
+    if kind == 'unpack':
+        N, N2, I = L(), L(), L()
+        src = '%s, %s = 1, 2\nfor %s in (3, 4):\n    %s = %s + %s\n' % (N, N2, I, N2, N2, I)
+        uses = [lambda a: '%s' % a(N), lambda a: '%s' % a(N2), lambda a: '%s + %s' % (a(N), a(N2))]
+        return src, [N, N2], uses
+    if kind == 'annotated':
+        C, N, P, V = U(), L(), L(), L()
+        src = ('class %s:\n    pass\n\n\n%s: int = 3\n\n\ndef %s(%s: %s) -> %s:\n    return %s\n'
+               % (C, V, N, P, C, C, P))
+        uses = [lambda a: '%s(%s()) is None' % (a(N), a(C)), lambda a: '%s' % a(V),
+                lambda a: 'isinstance(%s(%s()), %s)' % (a(N), a(C), a(C))]
+        return src, [N, C, V], uses
+    if kind == 'starargs':
+        N, A, K, D = L(), L(), L(), L()
+        C = L()
+        src = ('def %s(*%s, %s=0, **%s):\n    return len(%s) + %s + len(%s)\n\n\n%s = %s(1, %s=2)\n'
+               % (N, A, D, K, A, D, K, C, N, D))
+        uses = [lambda a: '%s(1, 2)' % a(N), lambda a: '%s(1, %s=5)' % (a(N), D), lambda a: '%s(other=1)' % a(N)]
+        return src, [N], uses
+    raise AssertionError(kind)
+
+
+def add_strand(prog, index, dims):
+    """dims: kind, provider, hop, consumer, form, scope, relative, combine, decoy"""
+    rng, names, sk = prog.rng, prog.names, prog.sk
+    kind, provider, hop, consumer, form = dims['kind'], dims['provider'], dims['hop'], dims['consumer'], dims['form']
+    src, exported, uses = entity(prog, kind)
+
+    # where the consumer lives
+    if consumer == 'main':
+        cmod = prog.main
+    elif consumer == 'flat':
+        cmod = prog.module(sk.app)
+    elif consumer == 'sibling':
+        cmod = prog.module(sk.pkg + '.' + sk.user)
+    else:
+        cmod = prog.module(sk.pkg + '.' + sk.inner + '.' + sk.user2)
+
+    # where the entity lives
+    if provider == 'inline':
+        pmod = cmod
+    elif provider == 'flat':
+        pmod = prog.module(sk.mod)
+    elif provider == 'pkgsub':
+        pmod = prog.module(sk.pkg + '.' + sk.sub)
+    elif provider == 'nested':
+        pmod = prog.module(sk.pkg + '.' + sk.inner + '.' + sk.leaf)
+    elif provider == 'pkginit':
+        pmod = prog.module(sk.pkg)
+    elif provider == 'secondroot':
+        pmod = prog.module(sk.extra, root=sk.root2)
+    elif provider == 'nssplit':
+        # an implicit namespace package with one portion in the second search-path root and one in the project
+        pmod = prog.module(sk.ns + '.' + sk.nsmod, root=sk.root2)
+        other = prog.module(sk.ns + '.' + sk.nsother)
+        if not other.body:
+            fn = names.lower_()
+            other.body.append('def %s():\n    return "portion"\n\n\n' % fn)
+            report(prog, other, fn, 'import_mod')
+    else:
+        raise AssertionError(provider)
+    pmod.body.append(src + '\n\n')
+
+    state = State(pmod, [], {e: e for e in exported})
+    used_forms = []
+    if provider != 'inline':
+        # optional re-exporting hop
+        hmod = None
+        if hop == 'pkg_init' and provider in ('pkgsub', 'nested', 'flat', 'secondroot', 'nssplit'):
+            hmod = prog.module(sk.pkg)
+        elif hop == 'inner_init' and provider in ('nested', 'flat'):
+            hmod = prog.module(sk.pkg + '.' + sk.inner)
+        elif hop == 'flat_hop':
+            hmod = prog.module(sk.hop)
+        if hmod is not None and hmod is not cmod and hmod is not pmod:
+            hform = dims['hop_form']
+            stmts, state = import_step(prog, hmod, state, hform, dims['hop_relative'], dims['combine'])
+            hmod.imports.extend(stmts)
+            used_forms.append('hop:' + hform)
+
+    lines = []          # import statements of the consumer
+    fallback = None
+    if provider != 'inline':
+        if form in ('fallback_try', 'fallback_if'):
+            if state.prefix or state.module is not pmod:
+                form = 'from_name'
+            else:
+                tmod = prog.module(sk.twin)
+                tmod.body.append(src + '\n\n')
+                fallback = tmod
+        if fallback is not None:
+            stmts1, st1 = import_step(prog, cmod, state, 'from_name', dims['relative'], dims['combine'])
+            stmts2, _ = import_step(prog, cmod, State(fallback, [], dict(state.namemap)), 'from_name', False,
+                                    dims['combine'])
+            state = st1
+            lines = (stmts1, stmts2)
+        else:
+            lines, state = import_step(prog, cmod, state, form, dims['relative'], dims['combine'])
+        used_forms.append(form)
+
+    def acc(name):
+        return '.'.join(state.prefix + [state.namemap[name]])
+
+    k = max(1, min(len(uses), dims['nuses']))
+    if fallback is not None and rng.random() < 0.7:
+        k = len(uses)           # every imported name is also used after the conditional import
+    chosen = rng.sample(uses, k)
+    exprs = [u(acc) for u in chosen]
+
+    # decoys: the same spelling bound to something unrelated
+    decoy_calls = []
+    decoy = dims['decoy']
+    if decoy == 'local':
+        fn = names.lower_()
+        target = exported[0]
+        dm = cmod if dims['scope'] == 'function' or provider == 'inline' or state.prefix else prog.module(sk.app)
+        if dm is cmod and not (dims['scope'] == 'function' or state.prefix) and provider != 'inline':
+            dm = prog.main if cmod is not prog.main else prog.module(sk.app)
+        dm.body.append('def %s():\n    %s = 11\n    return %s + 1\n\n\n' % (fn, target, target))
+        decoy_calls.append((dm, fn))
+    elif decoy == 'attribute':
+        cn, fn = names.upper_(), names.lower_()
+        target = exported[0]
+        dm = prog.module(sk.app) if rng.random() < 0.5 else pmod
+        dm.body.append('class %s:\n    %s = 100\n\n    def %s(self):\n        return self.%s\n\n\n'
+                       % (cn, target, fn, target))
+        decoy_calls.append((dm, '%s().%s' % (cn, fn)))
+    elif decoy == 'othermodule':
+        target = exported[0]
+        dm = prog.module(names.lower_())
+        dm.body.append('def %s():\n    return "unrelated"\n\n\n' % target)
+        decoy_calls.append((dm, target))
+
+    run = names.lower_()
+    scope = dims['scope']
+    ind = '    '
+    if fallback is not None:
+        ntry = dims['ntry']
+        probes = ['%s%s = %s\n' % (ind, names.lower_(), e) for e in (exprs * 3)[:ntry]]
+        if form == 'fallback_try':
+            block = ['try:\n'] + [ind + s for s in lines[0]] + probes + ['except ImportError:\n'] + \
+                    [ind + s for s in lines[1]]
+        else:
+            flag = names.lower_()
+            block = ['%s = len("x") == 1\n' % flag, 'if %s:\n' % flag] + [ind + s for s in lines[0]] + probes + \
+                    ['else:\n'] + [ind + s for s in lines[1]]
+        lines = block
+    listing = '[' + ', '.join(exprs) + ']'
+    if cmod is prog.main and scope == 'top':
+        prog.main.body.append(''.join(lines) + 'print(%s)\n' % listing)
+    elif scope == 'top':
+        if fallback is not None:
+            cmod.body.append(''.join(lines))
+        else:
+            cmod.imports.extend(lines)
+        cmod.body.append('def %s():\n    return %s\n\n\n' % (run, listing))
+    else:
+        cmod.body.append('def %s():\n%s    return %s\n\n\n' % (run, ''.join(ind + s for s in lines), listing))
+    if not (cmod is prog.main and scope == 'top'):
+        report(prog, cmod, run, dims['report_form'])
+    main_binds = cmod is prog.main and (provider == 'inline' or (scope == 'top' and not state.prefix))
+    for dm, call in decoy_calls:
+        # "from decoy_module import name" would rebind the name if main.py binds it itself
+        report(prog, dm, call, 'import_mod' if '.' in call or '(' in call or main_binds else dims['report_form'])
+    prog.tags.append('%s/%s/%s/%s/%s/%s' % (kind, provider, '+'.join(used_forms) or '-', consumer, scope, decoy))
+
+
+def report(prog, module, call, form):
+    """main prints ``module.call()``"""
+    main = prog.main
+    if module is main:
+        main.body.append('print(%s())\n' % call)
+    elif form == 'from_name' and '(' not in call and '.' not in call:
+        main.body.append('from %s import %s\nprint(%s())\n' % (module.dotted, call, call))
+    else:
+        stmt = 'import %s\n' % module.dotted
+        if stmt not in main.body:
+            main.body.append(stmt)
+        main.body.append('print(%s.%s())\n' % (module.dotted, call))
+
+
+def random_dims(rng, forced=None):
+    d = {
+        'kind': rng.choice(KINDS), 'provider': rng.choice(PROVIDER_LOCS), 'hop': rng.choice(HOPS),
+        'consumer': rng.choice(CONSUMER_LOCS), 'form': rng.choice(FORMS), 'scope': rng.choice(SCOPES),
+        'relative': rng.random() < 0.5, 'combine': rng.random() < 0.5, 'decoy': rng.choice(DECOYS),
+        'hop_form': rng.choice(['from_name', 'from_name', 'from_name_as', 'from_parent', 'from_parent',
+                                'from_parent_as', 'import_mod', 'star']),
+        'hop_relative': rng.random() < 0.6, 'nuses': rng.choice([1, 2, 2, 3, 4]), 'ntry': rng.choice([0, 1, 2, 2, 3]),
+        'report_form': rng.choice(['import_mod', 'from_name']),
+    }
+    if forced:
+        d.update(forced)
+        # make the forced value effective
+        if 'form' in forced or 'hop' in forced and forced['hop'] != 'none':
+            if d['provider'] == 'inline':
+                d['provider'] = rng.choice(PROVIDER_LOCS[1:])
+        if forced.get('hop') == 'pkg_init' and d['provider'] not in ('pkgsub', 'nested', 'flat', 'secondroot',
+                                                                     'nssplit'):
+            d['provider'] = rng.choice(['pkgsub', 'pkgsub', 'nested'])
+        if forced.get('hop') == 'inner_init' and d['provider'] not in ('nested', 'flat'):
+            d['provider'] = 'nested'
+        if forced.get('form') in ('fallback_try', 'fallback_if'):
+            d['hop'] = 'none'
+        if forced.get('form') in ('from_parent', 'from_parent_as') and d['hop'] == 'none' \
+                and d['provider'] not in ('pkgsub', 'nested', 'nssplit'):
+            d['provider'] = rng.choice(['pkgsub', 'nested', 'nssplit'])
+        if forced.get('form') == 'star':
+            d['scope'] = 'top'
+        if forced.get('relative'):
+            d['consumer'] = rng.choice(['sibling', 'deep'])
+            if d['provider'] not in ('pkgsub', 'nested', 'pkginit'):
+                d['provider'] = rng.choice(['pkgsub', 'nested', 'pkginit'])
+    if d['form'] == 'star':
+        d['scope'] = 'top'          # "import *" is only allowed at module level
+    if d['provider'] == 'pkginit' and d['hop'] in ('pkg_init',):
+        d['hop'] = 'none'
+    return d
+
+
+def coverage_list():
+    """partial dimension assignments that together contain every single dimension value (and some pairs); make_jobs
+    shuffles the list and forces its items, one after the other, onto the strands of the generated programs"""
+    out = []
+    for k in KINDS:
+        out.append({'kind': k})
+        out.append({'kind': k, 'provider': 'inline'})
+    for p in PROVIDER_LOCS:
+        out.append({'provider': p})
+    for h in ('pkg_init', 'inner_init', 'flat_hop'):
+        for i, hf in enumerate(('from_name', 'from_name_as', 'from_parent', 'from_parent_as', 'import_mod', 'star')):
+            out.append({'hop': h, 'hop_form': hf, 'hop_relative': (i + (h == 'pkg_init')) % 2 == 0})
+    for c in CONSUMER_LOCS:
+        out.append({'consumer': c})
+    for f in FORMS:
+        for s in ('top', 'function'):
+            out.append({'form': f, 'scope': s})
+        out.append({'form': f, 'relative': True})
+    for nt in (1, 2, 3):
+        out.append({'form': 'fallback_try', 'ntry': nt})
+        out.append({'form': 'fallback_if', 'ntry': nt})
+    for d in DECOYS:
+        out.append({'decoy': d})
+    for k in ('globalvar', 'redef', 'refunc', 'conddef', 'trydef', 'unpack'):
+        for f in ('from_name', 'import_mod', 'from_name_as', 'star'):
+            out.append({'kind': k, 'form': f})
+    return out
+
+
+def generate_program(seed, index, forced):
+    """deterministic in (seed, index, forced); ``forced`` holds one partial dimension assignment per strand"""
+    rng = random.Random('C05/%d/%d' % (seed, index))
+    prog = Program(rng, short_probability=0.04)
+    for i, f in enumerate(forced):
+        add_strand(prog, i, random_dims(rng, f))
+    files = prog.files()
+    return files, 'main.py', list(prog.extra_roots), prog.tags
+
+
+# --------------------------------------------------------------------------------------------------------------------
+# analysis of a program with the interpreter's own tools
 
 def write_tree(root, files):
     for rel, text in files.items():
@@ -54,11 +638,13 @@ def write_tree(root, files):
             f.write(text)
 
 
-def run_main(root, main, extra_roots=()):
+def run_main(root, main, extra_roots=(), timeout=120):
+    """execute the program in a fresh interpreter -> (exit status, stdout, tail of stderr)"""
     pp = os.pathsep.join([root] + [os.path.join(root, r) for r in extra_roots])
-    p = subprocess.run([sys.executable, '-S', main], cwd=root, capture_output=True, text=True, timeout=60,
-                       env={'PYTHONPATH': pp, 'PYTHONIOENCODING': 'utf-8', 'PATH': os.environ.get('PATH', '')})
-    return p.returncode, p.stdout, p.stderr[-300:]
+    p = subprocess.run([sys.executable, '-S', main], cwd=root, capture_output=True, text=True, timeout=timeout,
+                       env={'PYTHONPATH': pp, 'PYTHONIOENCODING': 'utf-8', 'PATH': os.environ.get('PATH', ''),
+                            'PYTHONDONTWRITEBYTECODE': '1', 'PYTHONHASHSEED': '0'})
+    return p.returncode, p.stdout, p.stderr.replace(root, '<project>')[-300:]
 
 
 def occurrences(text, ident):
@@ -66,6 +652,14 @@ def occurrences(text, ident):
     for tok in tokenize.generate_tokens(io.StringIO(text).readline):
         if tok.type == tokenize.NAME and tok.string == ident:
             out.append(tok.start)
+    return out
+
+
+def name_tokens(text):
+    out = {}
+    for tok in tokenize.generate_tokens(io.StringIO(text).readline):
+        if tok.type == tokenize.NAME and not keyword.iskeyword(tok.string):
+            out.setdefault(tok.string, []).append(tok.start)
     return out
 
 
@@ -80,127 +674,695 @@ def read_tree(root):
     return out
 
 
-def refs_of(jedi, project, root, rel, pos):
-    path = os.path.join(root, rel)
-    s = jedi.Script(open(path, encoding='utf-8', newline='').read(), path=path, project=project)
-    return s, {(os.path.relpath(str(r.module_path), root), r.line, r.column)
-               for r in s.get_references(pos[0], pos[1], include_builtins=False) if r.module_path is not None}
+def is_protocol_name(name):
+    return name.startswith('__') and name.endswith('__')
+
+
+def lexical_identifiers(files):
+    """{identifier: set of roles} for everything the program binds lexically (by ``ast``)"""
+    roles = {}
+
+    def add(name, role):
+        if name and not is_protocol_name(name) and name != '*':
+            roles.setdefault(name, set()).add(role)
+
+    for rel, text in files.items():
+        tree = ast.parse(text)
+        for node in ast.walk(tree):
+            if isinstance(node, (ast.FunctionDef, ast.AsyncFunctionDef)):
+                add(node.name, 'function')
+            elif isinstance(node, ast.ClassDef):
+                add(node.name, 'class')
+            elif isinstance(node, ast.arg):
+                add(node.arg, 'param')
+            elif isinstance(node, ast.Name) and isinstance(node.ctx, ast.Store):
+                add(node.id, 'variable')
+            elif isinstance(node, ast.Attribute) and isinstance(node.ctx, ast.Store):
+                add(node.attr, 'attribute')
+            elif isinstance(node, ast.ExceptHandler):
+                add(node.name, 'variable')
+            elif isinstance(node, ast.Import):
+                for a in node.names:
+                    if a.asname:
+                        add(a.asname, 'alias')
+                    for part in a.name.split('.'):
+                        add(part, 'module')
+            elif isinstance(node, ast.ImportFrom):
+                for part in (node.module or '').split('.'):
+                    add(part, 'module')
+                for a in node.names:
+                    if a.asname:
+                        add(a.asname, 'alias')
+                    add(a.name, 'imported')
+    # module and package names that are files of the program
+    for rel in files:
+        parts = rel[:-3].split(os.sep)
+        if parts[-1] == '__init__':
+            parts = parts[:-1]
+        for part in parts:
+            add(part, 'module')
+    for name in roles:
+        if len(roles[name]) > 1:
+            roles[name].discard('imported')
+    return roles
+
+
+def identifier_features(files, extra_roots=()):
+    """{identifier: sorted list of syntactic circumstances} (by ``ast``); they make the kind of input of a violation
+    recognisable: an identifier bound by ``as``, declared nonlocal/global, used as keyword argument in a module that
+    does not define the parameter, ..."""
+    feats = {}
+
+    def add(name, f):
+        if name:
+            feats.setdefault(name, set()).add(f)
+
+    params, keywords = {}, {}
+    for rel, text in files.items():
+        tree = ast.parse(text)
+        import_bindings = {}
+        globals_here, attrs_here = set(), set()
+        # a module in a directory without __init__.py that is not a search-path root: its own name, what it binds
+        # at module level and what it imports relatively
+        in_namespace_package = os.sep in rel and os.path.dirname(rel) not in extra_roots and \
+            os.path.join(os.path.dirname(rel), '__init__.py') not in files
+        if in_namespace_package:
+            add(os.path.basename(rel)[:-3], 'in-namespace-package')
+            for st in tree.body:
+                if isinstance(st, (ast.FunctionDef, ast.ClassDef)):
+                    add(st.name, 'in-namespace-package')
+                for n in ast.walk(st) if isinstance(st, (ast.Assign, ast.AnnAssign, ast.AugAssign, ast.For)) else ():
+                    if isinstance(n, ast.Name) and isinstance(n.ctx, ast.Store):
+                        add(n.id, 'in-namespace-package')
+        for node in ast.walk(tree):
+            if isinstance(node, (ast.Import, ast.ImportFrom)):
+                for a in node.names:
+                    if a.asname:
+                        add(a.asname, 'alias')
+                        add(a.name.split('.')[-1], 'imported-under-an-alias')
+                    bound = a.asname or a.name.split('.')[0]
+                    source = (getattr(node, 'module', None), getattr(node, 'level', 0), a.name)
+                    import_bindings.setdefault(bound, set()).add(source)
+                if isinstance(node, ast.ImportFrom) and node.level and in_namespace_package:
+                    for part in (node.module or '').split('.') + [a.name for a in node.names]:
+                        add(part, 'in-namespace-package')
+            elif isinstance(node, ast.Nonlocal):
+                for n in node.names:
+                    add(n, 'nonlocal')
+            elif isinstance(node, ast.Global):
+                for n in node.names:
+                    add(n, 'global-statement')
+                    globals_here.add(n)
+            elif isinstance(node, ast.arg):
+                params.setdefault(node.arg, set()).add(rel)
+            elif isinstance(node, ast.keyword) and node.arg:
+                keywords.setdefault(node.arg, set()).add(rel)
+            elif isinstance(node, (ast.ListComp, ast.SetComp, ast.DictComp, ast.GeneratorExp)):
+                for gen in node.generators:
+                    targets = {n.id for n in ast.walk(gen.target) if isinstance(n, ast.Name)}
+                    for cond in gen.ifs:
+                        for n in ast.walk(cond):
+                            if isinstance(n, ast.Name) and n.id in targets:
+                                add(n.id, 'comprehension-condition')
+            elif isinstance(node, ast.Attribute):
+                attrs_here.add(node.attr)
+            elif isinstance(node, ast.ClassDef):
+                for st in node.body:
+                    for n in ast.walk(st) if isinstance(st, (ast.Assign, ast.AnnAssign, ast.AugAssign)) else ():
+                        if isinstance(n, ast.Name) and isinstance(n.ctx, ast.Store):
+                            attrs_here.add(n.id)
+            elif isinstance(node, (ast.FunctionDef, ast.AsyncFunctionDef)):
+                declared = {n for st in ast.walk(node) if isinstance(st, ast.Global) for n in st.names}
+                for n in ast.walk(node):
+                    if isinstance(n, ast.Name) and isinstance(n.ctx, ast.Store) and n.id not in declared:
+                        attrs_here.add(n.id)        # a local variable
+                    elif isinstance(n, ast.arg):
+                        attrs_here.add(n.arg)
+        for n in globals_here & attrs_here:
+            add(n, 'global-and-other-binding-in-one-module')
+        for bound, sources in import_bindings.items():
+            if len(sources) > 1:
+                add(bound, 'imported-from-several-modules')
+    for name, mods in keywords.items():
+        if name in params and mods - params[name]:
+            add(name, 'keyword-argument-in-another-module')
+    return {k: sorted(v) for k, v in feats.items()}
+
+
+def _char_col(lines, lineno, byte_col):
+    return len(lines[lineno - 1].encode('utf-8')[:byte_col].decode('utf-8'))
+
+
+def lexical_bindings(text):
+    """{(line, col): binding id} for plain names, parameters and def/class names of one module, resolved with the
+    compiler's symbol table.  Names bound by a comprehension anywhere in the module are left out (their scope is an
+    implementation detail of the interpreter version)."""
+    tree = ast.parse(text)
+    top = symtable.symtable(text, '<module>', 'exec')
+    lines = text.split('\n')
+    toks = [t for t in tokenize.generate_tokens(io.StringIO(text).readline)]
+    name_pos_after = {}
+    for i, t in enumerate(toks):
+        if t.type == tokenize.NAME and t.string in ('def', 'class'):
+            name_pos_after[t.start] = toks[i + 1].start
+    skip = set()
+    for node in ast.walk(tree):
+        if isinstance(node, (ast.ListComp, ast.SetComp, ast.DictComp, ast.GeneratorExp)):
+            for gen in node.generators:
+                for n in ast.walk(gen.target):
+                    if isinstance(n, ast.Name):
+                        skip.add(n.id)
+    out = {}
+    counter = [0]
+
+    def resolve(name, chain):
+        table, sid = chain[-1]
+        try:
+            sym = table.lookup(name)
+        except KeyError:
+            return None
+        if sym.is_global():
+            return (chain[0][1], name)
+        if sym.is_local():
+            return (sid, name)
+        if sym.is_free():
+            for table2, sid2 in reversed(chain[:-1]):
+                if table2.get_type() == 'class':
+                    continue
+                try:
+                    s2 = table2.lookup(name)
+                except KeyError:
+                    continue
+                if s2.is_local():
+                    return (sid2, name)
+            return None
+        return None
+
+    def record(line, col, name, chain):
+        if name in skip:
+            return
+        b = resolve(name, chain)
+        if b is not None:
+            out[(line, col)] = b
+
+    def child_table(chain, name, lineno, used):
+        table = chain[-1][0]
+        for i, c in enumerate(table.get_children()):
+            if (id(table), i) not in used and c.get_name() == name and c.get_lineno() == lineno:
+                used.add((id(table), i))
+                counter[0] += 1
+                return chain + [(c, counter[0])]
+        raise RuntimeError('no symbol table for %s at line %d' % (name, lineno))
+
+    used = set()
+
+    def visit(node, chain):
+        if isinstance(node, (ast.FunctionDef, ast.AsyncFunctionDef)):
+            for d in node.decorator_list:
+                visit(d, chain)
+            for d in node.args.defaults + [x for x in node.args.kw_defaults if x is not None]:
+                visit(d, chain)
+            for a in node.args.posonlyargs + node.args.args + node.args.kwonlyargs + \
+                    [x for x in (node.args.vararg, node.args.kwarg) if x is not None]:
+                if a.annotation is not None:
+                    visit(a.annotation, chain)
+            if node.returns is not None:
+                visit(node.returns, chain)
+            kwpos = None
+            for start in name_pos_after:
+                if start[0] == node.lineno and start[1] >= _char_col(lines, node.lineno, node.col_offset):
+                    if kwpos is None or start < kwpos:
+                        kwpos = start
+            if kwpos is None:
+                raise RuntimeError('no def token for %s' % node.name)
+            p = name_pos_after[kwpos]
+            record(p[0], p[1], node.name, chain)
+            inner = child_table(chain, node.name, node.lineno, used)
+            for a in node.args.posonlyargs + node.args.args + node.args.kwonlyargs + \
+                    [x for x in (node.args.vararg, node.args.kwarg) if x is not None]:
+                record(a.lineno, _char_col(lines, a.lineno, a.col_offset), a.arg, inner)
+            for s in node.body:
+                visit(s, inner)
+            return
+        if isinstance(node, ast.Lambda):
+            for d in node.args.defaults + [x for x in node.args.kw_defaults if x is not None]:
+                visit(d, chain)
+            inner = child_table(chain, 'lambda', node.lineno, used)
+            for a in node.args.posonlyargs + node.args.args + node.args.kwonlyargs + \
+                    [x for x in (node.args.vararg, node.args.kwarg) if x is not None]:
+                record(a.lineno, _char_col(lines, a.lineno, a.col_offset), a.arg, inner)
+            visit(node.body, inner)
+            return
+        if isinstance(node, ast.ClassDef):
+            for d in node.decorator_list + node.bases + [k.value for k in node.keywords]:
+                visit(d, chain)
+            kwpos = None
+            for start in name_pos_after:
+                if start[0] == node.lineno and start[1] >= _char_col(lines, node.lineno, node.col_offset):
+                    if kwpos is None or start < kwpos:
+                        kwpos = start
+            if kwpos is None:
+                raise RuntimeError('no class token for %s' % node.name)
+            p = name_pos_after[kwpos]
+            record(p[0], p[1], node.name, chain)
+            inner = child_table(chain, node.name, node.lineno, used)
+            for s in node.body:
+                visit(s, inner)
+            return
+        if isinstance(node, (ast.ListComp, ast.SetComp, ast.DictComp, ast.GeneratorExp)):
+            # names of comprehensions are skipped as a whole (see docstring), but nested scopes must be consumed
+            for child in ast.iter_child_nodes(node):
+                visit_comprehension(child, chain)
+            return
+        if isinstance(node, ast.Name):
+            record(node.lineno, _char_col(lines, node.lineno, node.col_offset), node.id, chain)
+            return
+        for child in ast.iter_child_nodes(node):
+            visit(child, chain)
+
+    def visit_comprehension(node, chain):
+        for n in ast.walk(node):
+            if isinstance(n, (ast.Lambda, ast.FunctionDef, ast.ClassDef)):
+                raise RuntimeError('scopes inside comprehensions are not generated')
+        for n in ast.walk(node):
+            if isinstance(n, ast.Name) and n.id not in skip:
+                # evaluated in the enclosing scope as far as non-comprehension names are concerned
+                record(n.lineno, _char_col(lines, n.lineno, n.col_offset), n.id, chain)
+
+    for stmt in tree.body:
+        visit(stmt, [(top, 0)])
+    return out
+
+
+# --------------------------------------------------------------------------------------------------------------------
+# the checks
+
+L_PARTITION = 'references are not a partition (asking from a reported occurrence gives a different set)'
+L_EXACT = 'rename does not rewrite exactly the reported references'
+L_BEHAVIOUR = 'renamed program behaves differently'
+L_BACK = 'renaming back does not restore the original text'
+L_RAISED = 'rename raised'
+L_SELF = 'the occurrence under the cursor is not among its references'
+L_MISSING = 'references miss an occurrence the compiler binds to the same variable'
+L_SPURIOUS = 'references include an occurrence the compiler binds to a different variable'
+L_FLOW = 'flow_analysis_enabled is not restored after get_references'
+L_OUTSIDE = 'rename reaches files outside the project (not applied)'
+
+
+class ProgramCheck:
+    def __init__(self, jedi, tmp, index, files, main, extra_roots, tags, seed=0, back_limit=1):
+        self.jedi = jedi
+        self.index = index
+        self.seed = '%s/%s' % (seed, index)
+        self.run_cache = {}
+        self.back_count = {}
+        self.flow_reported = False
+        self.back_limit = back_limit
+        self.environment = jedi.InterpreterEnvironment()
+        self.files, self.main, self.extra_roots, self.tags = files, main, extra_roots, tags
+        self.dir = os.path.join(tmp, 'p%d' % index)
+        self.src = os.path.join(self.dir, 'src')
+        self.nwork = 0
+        self.memo = {}
+        self.violations = []
+        self.evaluations = 0
+        self.nontrivial = 0
+        self.bindings = {}
+
+    def outside(self, refactoring, root):
+        """paths a refactoring would write or rename that are not inside ``root``; such a refactoring must never be
+        applied (it would damage the Python installation or the tree under test)"""
+        tmp_real = os.path.join(os.path.realpath(os.environ['STANDIN_TMP']), '')
+        root_real = os.path.join(os.path.realpath(root), '')
+        if not root_real.startswith(tmp_real):
+            raise RuntimeError('work directory %r is not inside STANDIN_TMP' % root)
+        paths = list(refactoring.get_changed_files())
+        for old, new in refactoring.get_renames():
+            paths += [old, new]
+        bad = []
+        for p in paths:
+            if p is None or not os.path.join(os.path.realpath(str(p)), '').startswith(root_real):
+                bad.append(str(p))
+        return bad
+
+    def check_self_contained(self):
+        """harness precondition: every import of the program resolves to a file of the program and no module of the
+        program shadows or is shadowed by an importable module of the installation"""
+        tops = set()
+        for rel in self.files:
+            parts = rel.split(os.sep)
+            if parts[0] in self.extra_roots:
+                parts = parts[1:]
+            tops.add(parts[0][:-3] if parts[0].endswith('.py') else parts[0])
+        import importlib.util
+        for t in sorted(tops):
+            if t in sys.stdlib_module_names or t in sys.builtin_module_names or t in sys.modules:
+                raise RuntimeError('program module %r has the name of a standard library module' % t)
+            try:
+                spec = importlib.util.find_spec(t)
+            except (ImportError, ValueError):
+                spec = None
+            if spec is not None:
+                raise RuntimeError('program module %r is importable from the installation: %r' % (t, spec.origin))
+        for rel, text in self.files.items():
+            for node in ast.walk(ast.parse(text)):
+                if isinstance(node, ast.Import):
+                    mods = [a.name for a in node.names]
+                elif isinstance(node, ast.ImportFrom) and node.level == 0:
+                    mods = [node.module]
+                else:
+                    continue
+                for m in mods:
+                    if m.split('.')[0] not in tops:
+                        raise RuntimeError('program imports %r which is not part of the program' % m)
+
+    def project(self, root):
+        return self.jedi.Project(root, added_sys_path=[os.path.join(root, r) for r in self.extra_roots])
+
+    def script(self, root, rel):
+        path = os.path.join(root, rel)
+        with open(path, encoding='utf-8', newline='') as f:
+            code = f.read()
+        # the environment of this very interpreter: compiled modules (builtins) are inspected in-process instead of
+        # through jedi's helper subprocess, whose round trips dominate the wall time on a busy machine
+        return self.jedi.Script(code, path=path, project=self.project(root), environment=self.environment)
+
+    def refs_at(self, root, rel, pos):
+        s = self.script(root, rel)
+        try:
+            names = s.get_references(pos[0], pos[1], include_builtins=False)
+        finally:
+            flow = getattr(s._inference_state, 'flow_analysis_enabled', True)
+        refs = set()
+        for r in names:
+            if r.module_path is not None:
+                refs.add((os.path.relpath(str(r.module_path), root), r.line, r.column))
+        return s, refs, flow
+
+    def refs(self, rel, pos):
+        """references asked on the pristine tree, memoised; None when jedi gives up with RecursionError"""
+        key = (rel, pos)
+        if key not in self.memo:
+            try:
+                _, refs, flow = self.refs_at(self.src, rel, pos)
+            except RecursionError:
+                refs, flow = None, True
+            self.memo[key] = refs
+            if flow is not True and not self.flow_reported:
+                self.flow_reported = True         # once per program is enough
+                self.add(L_FLOW, {'name': None, 'at': key}, 'flow_analysis_enabled == %r' % (flow,), 'state')
+        return self.memo[key]
+
+    def add(self, label, inp, observed, role):
+        inp = dict(inp)
+        inp['kind'] = role
+        inp['program'] = self.index
+        inp['strands'] = self.tags
+        inp['files'] = self.files
+        self.violations.append({'label': label, 'input': repr(inp), 'observed': observed.replace(self.dir, '<tmp>'),
+                                'role': role})
+
+    def textual(self, refs, ident):
+        out = []
+        for (rrel, rl, rc) in sorted(refs):
+            lines = self.files.get(rrel, '').split('\n')
+            if rl is not None and rl <= len(lines) and lines[rl - 1][rc:rc + len(ident)] == ident:
+                out.append((rrel, rl, rc))
+        return out
+
+    def run(self, rng, per_pair, local_share=1.0):
+        self.check_self_contained()
+        os.makedirs(self.src)
+        write_tree(self.src, self.files)
+        rc0, out0, err0 = run_main(self.src, self.main, self.extra_roots)
+        if rc0 != 0:
+            raise RuntimeError('generated program %d does not run: %s\n%r' % (self.index, err0, self.files))
+        self.out0 = (rc0, out0)
+        roles = lexical_identifiers(self.files)
+        features = identifier_features(self.files, self.extra_roots)
+        self.import_bound = {}
+        self.keyword_names = {n.arg for text in self.files.values() for n in ast.walk(ast.parse(text))
+                              if isinstance(n, ast.keyword) and n.arg}
+        for rel, text in self.files.items():
+            self.bindings[rel] = lexical_bindings(text)
+            bound = set()
+            for node in ast.walk(ast.parse(text)):
+                if isinstance(node, (ast.Import, ast.ImportFrom)):
+                    for a in node.names:
+                        bound.add(a.asname or a.name.split('.')[0])
+            self.import_bound[rel] = bound
+        starts = []
+        all_toks = {rel: name_tokens(self.files[rel]) for rel in self.files}
+        spread = {}
+        for rel in all_toks:
+            for ident in all_toks[rel]:
+                spread[ident] = spread.get(ident, 0) + 1
+        for rel in sorted(self.files):
+            toks = all_toks[rel]
+            for ident in sorted(toks):
+                if ident not in roles:
+                    continue
+                if local_share < 1 and spread[ident] == 1 and 'module' not in roles[ident] \
+                        and rng.random() >= local_share:
+                    continue        # quick tier: identifiers that occur in one file only are sampled
+                occs = toks[ident]
+                if per_pair is not None and len(occs) > per_pair:
+                    occs = sorted(rng.sample(occs, per_pair))
+                for pos in occs:
+                    starts.append((ident, rel, pos))
+        for ident, rel, pos in starts:
+            self.evaluations += 1
+            role = '+'.join(sorted(roles[ident]) + [f for f in features.get(ident, []) if f not in roles[ident]] +
+                            (['short-name'] if len(ident) <= 2 else []))
+            self.evaluate(ident, rel, pos, role, rng)
+        shutil.rmtree(self.dir, ignore_errors=True)
+        return starts
+
+    def evaluate(self, ident, rel, pos, role, rng):
+        # the cursor is on any character of the identifier, not only on the first
+        cursor = (pos[0], pos[1] + rng.randrange(len(ident)))
+        where = {'name': ident, 'at': (rel, pos), 'cursor_column': cursor[1]}
+        self.nwork += 1
+        work = os.path.join(self.dir, 'w%d' % self.nwork)
+        os.makedirs(work)
+        try:
+            write_tree(work, self.files)
+            self.evaluate_in(work, ident, rel, pos, cursor, where, role, rng)
+        finally:
+            shutil.rmtree(work, ignore_errors=True)
+
+    def evaluate_in(self, work, ident, rel, pos, cursor, where, role, rng):
+        jedi = self.jedi
+        # the same Script answers get_references and then rename (a copy of the program of its own, so that
+        # apply() can be used); all other questions are asked on the pristine copy and memoised
+        try:
+            s, refs, flow = self.refs_at(work, rel, cursor)
+        except RecursionError:
+            return
+        except Exception:
+            self.add(L_RAISED, where, traceback.format_exc(limit=6), role)
+            return
+        if flow is not True and not self.flow_reported:
+            self.flow_reported = True
+            self.add(L_FLOW, where, 'flow_analysis_enabled == %r' % (flow,), 'state')
+        self.memo.setdefault((rel, cursor), refs)
+        if (rel, pos[0], pos[1]) not in refs:
+            self.add(L_SELF, where, 'references %r' % sorted(refs), role)
+            if not refs:
+                return
+        text_refs = self.textual(refs, ident)
+        if len(text_refs) > 1:
+            self.nontrivial += 1
+        # (b) partition
+        for (rrel, rl, rc) in text_refs:
+            try:
+                other = self.refs(rrel, (rl, rc))
+            except Exception:
+                self.add(L_RAISED, {'name': ident, 'at': (rrel, (rl, rc))}, traceback.format_exc(limit=6), role)
+                break
+            if other is not None and other != refs:
+                self.add(L_PARTITION, {'name': ident, 'asked': (rel, pos), 'then': (rrel, rl, rc)},
+                         'first %r, then %r' % (sorted(refs), sorted(other)), role)
+                break
+        # the compiler's view of plain names within the module under the cursor
+        bind = self.bindings[rel]
+        mine = bind.get(pos)
+        if mine is not None:
+            same = sorted(p for p, b in bind.items() if b == mine)
+            missing = [p for p in same if (rel, p[0], p[1]) not in refs]
+            if missing:
+                self.add(L_MISSING, where, 'missing %r of %r; references %r' % (missing, same, sorted(refs)), role)
+            # an imported name means the same object in whatever scope it is imported
+            # and parameters of alternative definitions are linked through a call that passes them by keyword
+            toks = [] if ident in self.import_bound[rel] or ident in self.keyword_names \
+                else name_tokens(self.files[rel]).get(ident, [])
+            spurious = [p for p in toks if p in bind and bind[p] != mine and (rel, p[0], p[1]) in refs]
+            if spurious:
+                self.add(L_SPURIOUS, where, 'spurious %r; references %r' % (spurious, sorted(refs)), role)
+
+        # one fresh name per identifier, so that cursors in the same reference class give the same rewritten program
+        new = random.Random('C05/new/%s/%s' % (self.seed, ident)).choice([ident + '_renamed', 'renamed_' + ident, 'zq9'])
+        where['new_name'] = new
+        refs_w = refs
+        try:
+            ref = s.rename(cursor[0], cursor[1], new_name=new)
+            changed = {os.path.relpath(str(p), work): cf.get_new_code() for p, cf in
+                       ref.get_changed_files().items()}
+            # (a) rewritten occurrences == reported references, in every file of the program
+            for prel in sorted(set(self.files) | set(changed)):
+                old_t = self.files.get(prel)
+                if old_t is None:
+                    self.add(L_EXACT, dict(where, file=prel), 'a file that is not part of the program is changed',
+                             role)
+                    continue
+                want = old_t.split('\n')
+                mine_here = sorted((r for r in refs_w if r[0] == prel and r[1] is not None), reverse=True)
+                for (_, rl, rc) in mine_here:
+                    if rl <= len(want) and want[rl - 1][rc:rc + len(ident)] == ident:
+                        want[rl - 1] = want[rl - 1][:rc] + new + want[rl - 1][rc + len(ident):]
+                want = '\n'.join(want)
+                new_t = changed.get(prel, old_t)
+                if new_t != want:
+                    self.add(L_EXACT, dict(where, file=prel),
+                             'new code %r, expected %r' % (new_t[:300], want[:300]), role)
+            outside = self.outside(ref, work)
+            if outside:
+                # NEVER apply such a refactoring: it would rewrite or rename files of the Python installation
+                self.add(L_OUTSIDE, where, 'paths %r; references %r' % (outside, sorted(refs_w)), role)
+                return
+            ref.apply()
+            # (d) same behaviour
+            after = read_tree(work)
+            tree_key = tuple(sorted(after.items()))
+            if tree_key not in self.run_cache:       # identical rewritten programs are executed once
+                try:
+                    self.run_cache[tree_key] = run_main(work, self.main, self.extra_roots, timeout=60)
+                except subprocess.TimeoutExpired:
+                    self.run_cache[tree_key] = ('timeout', '', '')
+            rc1, out1, err1 = self.run_cache[tree_key]
+            if (rc1, out1) != self.out0:
+                self.add(L_BEHAVIOUR, where, 'rc %r out %r err %r (was %r); references %r'
+                         % (rc1, out1[:120], err1, self.out0[1][:120], sorted(refs_w)), role)
+                return
+            # (c) rename back, asked from an occurrence of the new name
+            cands = []
+            for r2 in sorted(after):
+                for p2 in occurrences(after[r2], new):
+                    cands.append((r2, p2))
+            self.back_count[tree_key] = self.back_count.get(tree_key, 0) + 1
+            if cands and self.back_count[tree_key] <= self.back_limit:
+                back_from = cands[rng.randrange(len(cands))]
+                s2 = self.script(work, back_from[0])
+                ref2 = s2.rename(back_from[1][0], back_from[1][1], new_name=ident)
+                outside = self.outside(ref2, work)
+                if outside:
+                    self.add(L_OUTSIDE, dict(where, back_from=back_from), 'paths %r' % (outside,), role)
+                    return
+                ref2.apply()
+                final = read_tree(work)
+                if final != self.files:
+                    diff = sorted(k for k in set(final) | set(self.files) if final.get(k) != self.files.get(k))
+                    self.add(L_BACK, dict(where, back_from=back_from), 'files differing: %r' % diff, role)
+        except jedi.RefactoringError:
+            pass
+        except RecursionError:
+            pass
+        except Exception:
+            self.add(L_RAISED, where, traceback.format_exc(limit=6), role)
+
+
+def _worker(job):
+    index, spec, seed, tier, tmp = job
+    import jedi
+    jedi.settings.cache_directory = os.path.join(tmp, 'cache_%d' % os.getpid())
+    if spec[0] == 'fixed':
+        files, main, extra_roots = FIXED_PROGRAMS[spec[1]]
+        tags = ['fixed%d' % spec[1]]
+    else:
+        files, main, extra_roots, tags = generate_program(seed, spec[1], spec[2])
+    rng = random.Random('C05/eval/%d/%d' % (seed, index))
+    per_pair = 1 if tier == 'quick' else None
+    if spec[0] == 'fixed' and tier == 'quick':
+        per_pair = 2
+    check = ProgramCheck(jedi, tmp, index, files, main, extra_roots, tags, seed, 1 if tier == 'quick' else 3)
+    starts = check.run(rng, per_pair, 0.5 if tier == 'quick' and spec[0] != 'fixed' else 1.0)
+    return index, check.evaluations, check.nontrivial, check.violations, \
+        {'strands': tags, 'files': sorted(files), 'cursor_positions': len(starts)}
+
+
+def make_jobs(seed, tier, tmp):
+    n_generated = N_GENERATED[tier]
+    cover = coverage_list()
+    rng = random.Random('C05/cover/%d' % seed)
+    rng.shuffle(cover)
+    jobs = []
+    for i in range(len(FIXED_PROGRAMS)):
+        jobs.append((len(jobs), ('fixed', i), seed, tier, tmp))
+    ptr = 0
+    for i in range(n_generated):
+        nstrands = rng.choice([1, 2, 2, 3, 3])
+        forced = [cover[(ptr + k) % len(cover)] for k in range(nstrands)]
+        ptr += nstrands
+        jobs.append((len(jobs), ('generated', i, forced), seed, tier, tmp))
+    return jobs
+
+
+N_GENERATED = {'quick': 64, 'thorough': 320}
 
 
 def run(repo, seed, tier):
-    import jedi
-    violations = []
-    evaluations = 0
-    samples = []
-    for prog in PROGRAMS:
-        files, main, idents = prog[:3]
-        extra_roots = prog[3] if len(prog) > 3 else []
-        base = tempfile.mkdtemp(prefix='ren_', dir=os.environ['STANDIN_TMP'])
-        try:
-            write_tree(base, files)
-            rc0, out0, err0 = run_main(base, main, extra_roots)
-            if rc0 != 0:
-                violations.append({'label': 'generated program does not run', 'input': repr(files), 'observed': err0})
-                continue
-            for ident in idents:
-                for rel, text in files.items():
-                    occs = occurrences(text, ident)
-                    if tier == 'quick':
-                        occs = occs[:2]
-                    for pos in occs:
-                        evaluations += 1
-                        work = tempfile.mkdtemp(prefix='w_', dir=base + '_w') if False else tempfile.mkdtemp(
-                            prefix='renw_', dir=os.environ['STANDIN_TMP'])
-                        try:
-                            write_tree(work, files)
-                            project = jedi.Project(work, added_sys_path=[os.path.join(work, r) for r in extra_roots])
-                            try:
-                                s, refs = refs_of(jedi, project, work, rel, pos)
-                                if not refs:
-                                    continue
-                                # (b) partition
-                                for (rrel, rl, rc) in sorted(refs):
-                                    rtext = files.get(rrel, '').split('\n')
-                                    if rl > len(rtext) or rtext[rl - 1][rc:rc + len(ident)] != ident:
-                                        continue    # a module reported at (1, 0): not an occurrence of the identifier
-                                    _, other = refs_of(jedi, project, work, rrel, (rl, rc))
-                                    if other != refs:
-                                        violations.append({
-                                            'label': 'references are not a partition (asking from a reported occurrence '
-                                                     'gives a different set)',
-                                            'input': repr({'name': ident, 'asked': (rel, pos), 'then': (rrel, rl, rc)}),
-                                            'observed': 'first %r, then %r' % (sorted(refs), sorted(other))})
-                                        break
-                                new = ident + '_renamed'
-                                ref = s.rename(pos[0], pos[1], new_name=new)
-                                changed = ref.get_changed_files()
-                                # (a) rewritten occurrences == reported references
-                                for path, cf in changed.items():
-                                    prel = os.path.relpath(str(path), work)
-                                    old_t = open(str(path), encoding='utf-8', newline='').read()
-                                    new_t = cf.get_new_code()
-                                    want = old_t
-                                    for (rrel, rl, rc) in sorted((r for r in refs if r[0] == prel), reverse=True):
-                                        ls = want.split('\n')
-                                        line = ls[rl - 1]
-                                        if line[rc:rc + len(ident)] == ident:
-                                            ls[rl - 1] = line[:rc] + new + line[rc + len(ident):]
-                                        want = '\n'.join(ls)
-                                    if new_t != want:
-                                        violations.append({
-                                            'label': 'rename does not rewrite exactly the reported references',
-                                            'input': repr({'name': ident, 'at': (rel, pos), 'file': prel}),
-                                            'observed': 'new code %r, expected %r' % (new_t[:200], want[:200])})
-                                ref.apply()
-                                # (d) same behaviour
-                                rc1, out1, err1 = run_main(work, main, extra_roots)
-                                if (rc1, out1) != (rc0, out0):
-                                    violations.append({
-                                        'label': 'renamed program behaves differently',
-                                        'input': repr({'name': ident, 'at': (rel, pos)}),
-                                        'observed': 'rc %r out %r err %r (was %r)' % (rc1, out1[:120], err1, out0[:120])})
-                                    continue
-                                # (c) rename back
-                                after = read_tree(work)
-                                back_from = None
-                                for r2, t2 in after.items():
-                                    o2 = occurrences(t2, new)
-                                    if o2:
-                                        back_from = (r2, o2[0])
-                                        break
-                                if back_from:
-                                    p2 = jedi.Project(work, added_sys_path=[os.path.join(work, r) for r in extra_roots])
-                                    path2 = os.path.join(work, back_from[0])
-                                    s2 = jedi.Script(open(path2, encoding='utf-8', newline='').read(), path=path2, project=p2)
-                                    s2.rename(back_from[1][0], back_from[1][1], new_name=ident).apply()
-                                    final = read_tree(work)
-                                    if final != files:
-                                        diff = [k for k in set(final) | set(files) if final.get(k) != files.get(k)]
-                                        violations.append({
-                                            'label': 'renaming back does not restore the original text',
-                                            'input': repr({'name': ident, 'at': (rel, pos)}),
-                                            'observed': 'files differing: %r' % diff})
-                            except jedi.RefactoringError:
-                                pass
-                            except RecursionError:
-                                pass
-                            except Exception:
-                                violations.append({'label': 'rename raised', 'input': repr({'name': ident, 'at': (rel, pos)}),
-                                                   'observed': traceback.format_exc(limit=4)})
-                        finally:
-                            shutil.rmtree(work, ignore_errors=True)
-            if len(samples) < 2:
-                samples.append({'files': sorted(files), 'identifiers': idents})
-        finally:
-            shutil.rmtree(base, ignore_errors=True)
-    seen = {}
-    for v in violations:
-        seen.setdefault(v['label'], []).append(v)
+    tmp = os.environ['STANDIN_TMP']
+    jobs = make_jobs(seed, tier, tmp)
+    n_generated = N_GENERATED[tier]
+    workers = max(1, min(16, os.cpu_count() or 1))
+    ctx = multiprocessing.get_context('fork')
+    pool = ctx.Pool(workers)
+    try:
+        results = list(pool.imap_unordered(_worker, jobs, chunksize=1))
+        pool.close()
+        pool.join()
+    except BaseException:
+        pool.terminate()
+        pool.join()
+        raise
+    results.sort(key=lambda r: r[0])
+    evaluations = sum(r[1] for r in results)
+    nontrivial = sum(r[2] for r in results)
+    all_violations = [v for r in results for v in r[3]]
+    # all violations are counted; of every (label, kind of input) at most three are shown, the first of every kind
+    # before the second of any, so that a new kind of violation is never crowded out by the known ones
+    counts, kind_counts, by_kind = {}, {}, {}
+    for v in all_violations:
+        counts[v['label']] = counts.get(v['label'], 0) + 1
+        k = '%s | %s' % (v['label'], v.pop('role'))
+        kind_counts[k] = kind_counts.get(k, 0) + 1
+        by_kind.setdefault(k, []).append(v)
+    shown = []
+    for rank in range(3):
+        for k in sorted(by_kind):
+            if rank < len(by_kind[k]) and len(shown) < 60:
+                shown.append(by_kind[k][rank])
+    samples = [r[4] for r in results[len(FIXED_PROGRAMS):len(FIXED_PROGRAMS) + 3]]
     return {'name': 'C05.rename-programs', 'contract': 'C05.rename',
-            'evaluations': evaluations, 'distinct_nontrivial': evaluations,
-            'rule': '%d executable programs (functions/params/keywords, classes/attributes, lambdas/closures, two-module '
-                    'imports with non-ASCII identifiers, package with re-export and alias, for/with/except/comprehension '
-                    'targets) x every listed identifier x its token occurrences; rename to a fresh name, apply, run, '
-                    'rename back' % len(PROGRAMS),
-            'samples': samples, 'violations': violations[:300],
-            'violation_counts': {k: len(v) for k, v in seen.items()}}
+            'evaluations': evaluations, 'distinct_nontrivial': nontrivial,
+            'rule': '%d fixed programs and %d generated executable programs, deterministic in the seed.  A generated '
+                    'program is 1-3 strands of entity kind %r x definition site %r x re-exporting hop %r (with its own '
+                    'import form) x consumer site %r x import form %r (absolute or relative, one statement or one per '
+                    'name, at module level or inside a function, 0-3 uses inside a conditional import) x decoy %r (the '
+                    'same spelling bound to something unrelated) over one shared package/module skeleton (regular or '
+                    'namespace package, nested sub-package, flat modules, second search-path root); every single '
+                    'dimension value is forced onto some program of the run.  Cursors: every identifier the program '
+                    'binds (found with ast) x %s, on a random character of the identifier.  Per cursor: '
+                    'get_references (the cursor must be among them); get_references from every reported occurrence '
+                    'gives the same set; plain names agree with the symbol table of the compiler for the module under '
+                    'the cursor; rename to a fresh name with the same Script and compare the new code of every file '
+                    'with the reported references; apply (only if every written or renamed path lies inside the '
+                    'temporary project) and execute the original and the rewritten program in child interpreters '
+                    '(exit status and output must agree); rename back from a random occurrence of the new name and '
+                    'compare the tree byte for byte; flow_analysis_enabled is restored after every query'
+                    % (len(FIXED_PROGRAMS), n_generated, KINDS, PROVIDER_LOCS, sorted(set(HOPS)), CONSUMER_LOCS,
+                       FORMS, DECOYS,
+                       'one sampled token occurrence per file (identifiers occurring in one file only: every second '
+                       'one)' if tier == 'quick' else 'every token occurrence in every file'),
+            'samples': samples, 'violations': shown, 'violation_counts': counts,
+            'violation_kind_counts': kind_counts}
